@@ -206,6 +206,9 @@ pub fn std_alphabet(npos: u8, with_admin: bool) -> Vec<Op> {
     // name a neighbouring tick array for one bound
     a.push(Op::Dec { pos: 0, part: Part::Wrap(1_000_000_007), v2: false });
     a.push(Op::Dec { pos: 1, part: Part::Wrap(3), v2: true });
+    a.push(Op::Dec { pos: 2, part: Part::Over(1), v2: false }); // one unit more than the position holds
+    a.push(Op::Inc { pos: 0, liq: 0, v2: true }); // zero liquidity
+    a.push(Op::Inc { pos: 1, liq: (1u128 << 127) + 5, v2: false }); // does not fit a signed delta
     a.push(Op::IncTa { pos: 1, liq: BIG / 4, lower_shift: 1, upper_shift: 0, v2: false });
     a.push(Op::IncTa { pos: 2, liq: BIG / 4, lower_shift: 0, upper_shift: -1, v2: true });
     for pos in 0..npos {
